@@ -512,7 +512,9 @@ fn run_scenarios(scns: &[Value], out: &mut Out, res: &mut Out) -> Value {
     let (mut bad_exp, mut bad_fwd, mut events) = (0usize, 0usize, 0usize);
     for (n, raw) in scns.iter().enumerate() {
         let scn = parse_scenario(raw);
-        let (direct, log) = execute(&scn, false, n);
+        // which Stream face of the channel the forwarded run reads (a replay file pins it)
+        let variant = raw.get("variant").and_then(|v| v.as_u64()).map(|v| v as usize).unwrap_or(n);
+        let (direct, log) = execute(&scn, false, variant);
         let mut reset = line("Reset", "", 0, 0, "");
         reset["mode"] = scn.raw["mode"].clone();
         reset["pol"] = scn.raw["pol"].clone();
@@ -523,7 +525,7 @@ fn run_scenarios(scns: &[Value], out: &mut Out, res: &mut Out) -> Value {
         }
         out.line(&line("Stop", &direct.status, 0, 0, ""));
         events += direct.out.len();
-        let (fwd, _) = execute(&scn, true, n);
+        let (fwd, _) = execute(&scn, true, variant);
         let e1 = raw.get("exp").and_then(|exp| expected_mismatch(exp, &direct));
         let e2 = forward_mismatch(&direct, &fwd);
         bad_exp += e1.is_some() as usize;
@@ -682,17 +684,20 @@ fn main() {
         }
         "merge-run" | "merge-random" => {
             let mut out = Out::create(args.req("out"));
-            let schedules: Vec<Vec<String>> = if args.cmd == "merge-run" {
+            let schedules: Vec<(Vec<String>, Option<usize>)> = if args.cmd == "merge-run" {
                 read_ndjson(args.req("scenarios"))
                     .iter()
-                    .map(|v| v["ops"].as_array().expect("ops").iter().map(|o| o.as_str().expect("op").to_string()).collect())
+                    .map(|v| {
+                        let ops = v["ops"].as_array().expect("ops").iter().map(|o| o.as_str().expect("op").to_string()).collect();
+                        (ops, v.get("variant").and_then(|x| x.as_u64()).map(|x| x as usize))
+                    })
                     .collect()
             } else {
                 let mut rng = rng(args.u64("seed", 1));
-                (0..args.usize("n", 200)).map(|_| random_schedule(&mut rng)).collect()
+                (0..args.usize("n", 200)).map(|_| (random_schedule(&mut rng), None)).collect()
             };
-            for (n, ops) in schedules.iter().enumerate() {
-                merge_schedule(ops, n, &mut out);
+            for (n, (ops, variant)) in schedules.iter().enumerate() {
+                merge_schedule(ops, variant.unwrap_or(n), &mut out);
             }
             println!("{}", json!({"schedules": schedules.len(), "lines": out.finish()}));
         }
